@@ -111,9 +111,14 @@ def posmc_spaces(prop, tier):
         four = ["KPkp", "KRkp", "KPPk", "Kkpp"] if q else MEN4
         for s in four:
             sig(s, 16)
+        if q:
+            # pinned sliders (diagonal and straight) with both kings possibly on the pin line
+            for s in ["KQkb;files=6", "KBkq;files=6", "KQkq;files=6", "KRkr;files=6", "KQkr;files=6", "KBkb;files=6"]:
+                sig(s, 4)
         if not q:
             # five-men families on a five-file board: pawn + heavy pieces, minor pieces + pawn, pawn races
-            for s in ["KRPkr;files=5", "KQPkq;files=5", "KBNkp;files=5", "KPPkp;files=5", "KRkpp;files=5", "KNPkb;files=5"]:
+            for s in ["KRPkr;files=5", "KQPkq;files=5", "KBNkp;files=5", "KPPkp;files=5", "KRkpp;files=5", "KNPkb;files=5",
+                      "KQkbp;files=5", "KBkqn;files=5", "KRkrn;files=5", "KQNkb;files=5"]:
                 sig(s, 32)
     elif prop in ("C02", "C15", "C04", "C16"):
         for s in MEN3:
